@@ -1,32 +1,33 @@
 #!/bin/bash
 # tools/mutant_run.sh <patch.diff> <ID> [quick|thorough]
 # Runs one check against a SCRATCH copy of /repo with the patch applied (never touches /repo or /verif outputs).
-# Scratch: /tmp/mut-wt (worktree), /tmp/mut-harness, /tmp/mut-target*, /tmp/mut-out. Remove with: tools/mutant_run.sh --clean
+# Scratch: $M-wt (worktree), $M-harness, $M-target*, $M-out. Remove with: tools/mutant_run.sh --clean
 set -u
+M=/tmp/${MUT_NAME:-mut}   # set MUT_NAME=<yourname> to get private scratch dirs /tmp/<yourname>-{wt,harness,target,...}
 if [ "${1:-}" = "--clean" ]; then
-  git -C /repo worktree remove --force /tmp/mut-wt 2>/dev/null; rm -rf /tmp/mut-wt /tmp/mut-harness /tmp/mut-target /tmp/mut-target-repo /tmp/mut-target-repo-oc /tmp/mut-out; exit 0
+  git -C /repo worktree remove --force $M-wt 2>/dev/null; rm -rf $M-wt $M-harness $M-target $M-target-repo $M-target-repo-oc $M-out; exit 0
 fi
 PATCH=$(readlink -f "$1"); ID=$2; TIER=${3:-quick}
 unset RUSTFLAGS; export CARGO_NET_OFFLINE=true SOURCE_DATE_EPOCH=1700000000
-if [ ! -d /tmp/mut-wt ]; then git -C /repo worktree add -q --detach /tmp/mut-wt HEAD || exit 2; fi
-git -C /tmp/mut-wt checkout -q --detach "$(git -C /repo rev-parse HEAD)" && git -C /tmp/mut-wt checkout -q -- . && git -C /tmp/mut-wt clean -fdq
-if [ "$PATCH" != "/dev/null" ]; then git -C /tmp/mut-wt apply "$PATCH" || { echo "patch does not apply"; exit 2; }; fi
-mkdir -p /tmp/mut-harness /tmp/mut-out
-rsync -a --delete --exclude Cargo.lock /verif/harness/ /tmp/mut-harness/
-[ -f /tmp/mut-harness/Cargo.lock ] || cp /repo/Cargo.lock /tmp/mut-harness/Cargo.lock
-sed -i 's#"/repo/#"/tmp/mut-wt/#g' /tmp/mut-harness/Cargo.toml
-sed -i 's#/verif/target#/tmp/mut-target#' /tmp/mut-harness/.cargo/config.toml
+if [ ! -d $M-wt ]; then git -C /repo worktree add -q --detach $M-wt HEAD || exit 2; fi
+git -C $M-wt checkout -q --detach "$(git -C /repo rev-parse HEAD)" && git -C $M-wt checkout -q -- . && git -C $M-wt clean -fdq
+if [ "$PATCH" != "/dev/null" ]; then git -C $M-wt apply "$PATCH" || { echo "patch does not apply"; exit 2; }; fi
+mkdir -p $M-harness $M-out
+rsync -a --delete --exclude Cargo.lock /verif/harness/ $M-harness/
+[ -f $M-harness/Cargo.lock ] || cp /repo/Cargo.lock $M-harness/Cargo.lock
+sed -i "s#\"/repo/#\"$M-wt/#g" $M-harness/Cargo.toml
+sed -i "s#/verif/target#$M-target#" $M-harness/.cargo/config.toml
 bin=$(echo "$ID" | tr 'A-Z' 'a-z')
 feats=$(python3 /verif/tools/binfeatures.py "$bin")
-(cd /tmp/mut-harness && cargo build --release --offline --bin "$bin" --features "$feats" 2>&1 | tail -3) || exit 2
-case "$ID" in C01|C05|C14|C15|C19|C20)
-  (cd /tmp/mut-wt && CARGO_TARGET_DIR=/tmp/mut-target-repo cargo build --release --offline -p fontc 2>&1 | tail -1) || exit 2
-  export VERIF_FONTC_BIN=/tmp/mut-target-repo/release/fontc;;
+(cd $M-harness && cargo build --release --offline --bin "$bin" --features "$feats" 2>&1 | tail -3) || exit 2
+case "$ID" in C01|C05|C14|C15|C18|C19|C20)
+  (cd $M-wt && CARGO_TARGET_DIR=$M-target-repo cargo build --release --offline -p fontc 2>&1 | tail -1) || exit 2
+  export VERIF_FONTC_BIN=$M-target-repo/release/fontc;;
 esac
 if [ "$ID" = C19 ]; then
-  (cd /tmp/mut-wt && CARGO_TARGET_DIR=/tmp/mut-target-repo-oc RUSTFLAGS="-C overflow-checks=on -C debug-assertions=on" cargo build --release --offline -p fontc 2>&1 | tail -1) || exit 2
-  export VERIF_FONTC_BIN_OC=/tmp/mut-target-repo-oc/release/fontc
+  (cd $M-wt && CARGO_TARGET_DIR=$M-target-repo-oc RUSTFLAGS="-C overflow-checks=on -C debug-assertions=on" cargo build --release --offline -p fontc 2>&1 | tail -1) || exit 2
+  export VERIF_FONTC_BIN_OC=$M-target-repo-oc/release/fontc
 fi
-export VERIF_OUT=/tmp/mut-out
-/tmp/mut-target/release/$bin $TIER
+export VERIF_OUT=$M-out
+$M-target/release/$bin $TIER
 echo "exit status: $?"
